@@ -112,7 +112,7 @@ fn c11_o2_inductive_add_2() {
 #[kani::stub(crate::common::id::id_prefix_ipv4, crate::verif_env::ufp::prefix)]
 #[kani::unwind(21)]
 fn c11_o2u_inductive_add_2_uf() {
-    let outs: [[u8; 3]; 4] = kani::any();
+    let outs: [[u8; 3]; 4] = kani::env();
     crate::verif_env::ufp::arm(outs);
     inductive_add_2();
     assert!(!crate::verif_env::cut_reached(), "CUT: more distinct (ip, r) pairs than P has slots");
